@@ -21,7 +21,7 @@ RULE = (
     "x modifier {plain, ignore_result, force_local}. A table-driven memento function returns/raises it. Oracle: call 1 runs the body exactly once and returns the object; "
     "calls 2-3 and a call after reopening the store run nothing and return a typed-equal value (same ResultType for partitions); memento().result_type == ResultType.from_object(value read back); "
     "the object returned by call 1 is still fully usable; exceptions replay as the same class when Class(message) can be built else MementoException, original message contained; "
-    "NonMemoizedException is never recorded; forget(a) makes exactly call a run again and no other. Non-trivial = anything but a bare scalar literal; distinct by (type shape, backend, modifier)."
+    "NonMemoizedException is never recorded; call_batch([a, a']) with a memoized and a' new runs only a' and returns the memoized value next to the new one; forget(a) makes exactly call a run again and no other. Non-trivial = anything but a bare scalar literal; distinct by (type shape, backend, modifier)."
 )
 ASSUMPTIONS = [
     "frames/series stay <= 100 rows (above that the cache estimates size by random row sampling)",
@@ -210,6 +210,30 @@ def execute(case, scratch):
                     out.violation("value returned by the first call no longer equals the computed value", symptom="first-value-unusable")
             except Exception as e:
                 out.violation("value returned by the first call is no longer usable: %r" % (e,), symptom="first-value-unusable")
+        # the batch entry point is the same function: a memoized element followed by a new one
+        if not out.violations and not (is_exc and spec["exc"] == "NotMemoized") and case["modifier"] != "ignore_result":
+            k_new = -k
+            rt.TABLE[("val", k_new)] = lambda: "fresh-element"
+            rt.take()
+            try:
+                got = call.call_batch([{"k": k}, {"k": k_new}], raise_first_exception=False)
+            except Exception as e:
+                sig = lib_exception_signature(e)
+                if sig is None:
+                    raise
+                out.violation("call_batch([memoized, new]) raised %r" % (e,), symptom="exception", **sig)
+                return _fin(out, case)
+            bruns = [r[1]["k"] for r in rt.take() if r[0] == "val"]
+            if bruns != [k_new]:
+                out.violation("call_batch([memoized k, new k']) ran the bodies of %r, expected only the new element" % (bruns,), symptom="batch-runs")
+            if not (isinstance(got, list) and len(got) == 2 and isinstance(got[1], str) and got[1] == "fresh-element"):
+                out.violation("call_batch([memoized k, new k']) returned %s; the new element computes 'fresh-element'" % _r(got), symptom="batch-new-element-wrong")
+            elif is_exc:
+                want_msg = "fixed text" if spec["exc"] == "NoArgErr" else (spec["msg"] + "/second" if spec["exc"] == "TwoArgErr" else spec["msg"])
+                if not isinstance(got[0], Exception) or want_msg not in str(got[0]):
+                    out.violation("call_batch slot of the memoized exception holds %s" % _r(got[0]), symptom="batch-memoized-element-wrong")
+            elif not _equal(got[0], reference):
+                out.violation("call_batch slot of the memoized element holds %s, the body computed %s" % (_r(got[0]), _r(reference)), symptom="batch-memoized-element-wrong")
         # forget exactly this call
         if not out.violations and not (is_exc and spec["exc"] == "NotMemoized"):
             fn.forget(k)
